@@ -401,3 +401,35 @@ Definition smooth_inner (sm : smoother) : list row -> list draw -> result (list 
   | SEnsemble fx ms n m => ensemble fx ms n m
   end.
 Definition smooth_plates (sm : smoother) := wrap (smooth_inner sm).
+
+(* ---- vocabulary of the source translations (harness/src_functions.py -> Generated/SrcRetro.v) ----
+   One definition per primitive the translated functions are configured with: the meaning given to one
+   attribute / method / library call of batchie.data or heapq.  Everything else in Generated/SrcRetro.v
+   (branches, None checks, loops, raises, arithmetic) comes from the translation of the source text. *)
+Definition screen_t := list row.      (* a Screen: its experiments, in row order *)
+Definition subset_t := list row.      (* a ScreenSubset: the selected experiments of its parent, in row order *)
+(* self._generate_plates(screen, rng) / self._smooth_plates(screen, rng): any function of the screen and of the
+   recorded answers still unread; returns the new screen and the answers left, or raises *)
+Definition inner := screen_t -> list draw -> result (screen_t * list draw).
+(* Screen.subset_unobserved(): `if np.any(~self.observation_mask): return self.subset(~self.observation_mask)` *)
+Definition subset_unobserved (s : screen_t) : option subset_t :=
+  if is_nil (unobserved s) then None else Some (unobserved s).
+(* Screen.subset_observed(): `if np.any(self.observation_mask): return self.subset(self.observation_mask)` *)
+Definition subset_observed (s : screen_t) : option subset_t :=
+  if is_nil (observed s) then None else Some (observed s).
+(* ScreenSubset.to_screen(): Screen(<every column>[self.selection_vector].copy()) - ids are re-encoded (not stored
+   here) and the selected rows of a plate-uniform parent are plate-uniform, so the constructor accepts them *)
+Definition to_screen (s : subset_t) : screen_t := s.
+(* Screen.combine(other): Screen(<every column of self> ++ <every column of other>) *)
+Definition combine_screens (a b : screen_t) : result screen_t := construct (a ++ b).
+(* Screen.plates: [self.get_plate(x) for x in self.unique_plate_ids], get_plate(x) = Plate(self, self.plate_ids == x).
+   A Plate object is its selection vector into its (mutable) parent screen; plate ids are ranks of sorted names. *)
+Definition plates_of (s : screen_t) : list bvec := map (fun p => plate_vec p s) (plate_names_of s).
+(* plate.unique_sample_ids of a plate [v] of the screen [s]: np.unique(s.sample_ids[v]) - as names, sorted *)
+Definition plate_unique_samples (v : bvec) (s : screen_t) : list name := sort_uniq name_cmp (map r_sample (vselect v s)).
+(* a[0] on a numpy array: IndexError when it is empty *)
+Definition first_item {A} (l : list A) : result A := match l with x :: _ => Ok x | [] => Err 92%Z end.
+(* plate.size = number of selected experiments *)
+Definition plate_size (v : bvec) : Z := Z.of_nat (vcount v).
+(* len(l) *)
+Definition zlen {A} (l : list A) : Z := Z.of_nat (length l).
